@@ -44,6 +44,8 @@ def gate_body(t, admit, admit2, with_filter):
     order = (cv1, cv2) if t.take(2) == 0 else (cv2, cv1)
     nparams = func.__code__.co_argcount
     recorded = {}
+    if t.take(2) == 1:
+        return _recycled_gate(func, name, admit, admit2, with_filter)
     for cv in order:
         fr = FakeFrame(cv, {n: 1 for n in func.__code__.co_varnames[:nparams]})
         tracer.cache[cv] = func
@@ -65,7 +67,51 @@ def gate_body(t, admit, admit2, with_filter):
     return check(True)
 
 
-tape_harness("gate", [("t", 3)], {"admit": "bool", "admit2": "bool", "with_filter": "bool"}, gate_body, globals())
+def _recycled_gate(func, name, admit, admit2, with_filter):
+    """Code objects die and new ones appear during one tracing session (modules unloaded / reloaded): the first
+    code object and its frame are dropped before the second one is created, so the interpreter is free to give
+    the second one the first one's address.  Verdicts must follow the code object, not its address."""
+    logger = ListLogger()
+    verdicts = {}
+
+    def code_filter(code):
+        return verdicts[code.tag]
+
+    tracer = CallTracer(logger, 0, code_filter if with_filter else None, None)
+    nparams = func.__code__.co_argcount
+    results = []
+    old_id, spare = None, []
+    for tag, adm in (("first", admit), ("second", admit2)):
+        verdicts[tag] = adm
+        cv = CodeView(func.__code__, name=name)
+        # adversarial allocator: look for the allocation that lands on the dead code object's address
+        while old_id is not None and id(cv) != old_id and len(spare) < 300:
+            spare.append(cv)
+            cv = CodeView(func.__code__, name=name)
+        cv.tag = tag
+        fr = FakeFrame(cv, {n: 1 for n in func.__code__.co_varnames[:nparams]})
+        want = (name != "trace_types") and (bool(adm) or not with_filter)
+        if want:
+            tracer.cache[cv] = func  # (a rejected code object never reaches the function cache)
+        before = len(logger.traces)
+        cv.co_code = [0]
+        tracer(fr, "call", None)
+        started = fr in tracer.traces
+        cv.co_code = [sorted(RETURN_OPS)[0]]
+        tracer(fr, "return", 1)
+        results.append((tag, started, len(logger.traces) == before + 1, want))
+        if want:
+            del tracer.cache[cv]  # the module was unloaded: nothing else refers to its code
+        old_id = id(cv)
+        del cv, fr
+    for tag, started, rec, want in results:
+        if started != want or rec != want:
+            return check(False, lambda: f"recycled code objects, verdicts ({bool(admit)}, {bool(admit2)}) with_filter={bool(with_filter)}: "
+                                        f"{tag} code object started={started} recorded={rec}, expected {want}")
+    return check(not tracer.traces, "per-call state left behind")
+
+
+tape_harness("gate", [("t", 4)], {"admit": "bool", "admit2": "bool", "with_filter": "bool"}, gate_body, globals())
 
 
 # ---------------------------------------------------------------- __main__ exclusion
@@ -135,9 +181,15 @@ def _symlinked_root():
 
         d = tempfile.mkdtemp(prefix="verif_c17_")
         os.symlink(str(MC.LIB_PATHS[0]), os.path.join(d, "liblink"))
+        # a user-directory FILE that is itself a link to a standard-library source file (a vendored module)
+        os.symlink(os.path.join(str(MC.LIB_PATHS[0]), "colorsys.py"), os.path.join(d, "vendored_colorsys.py"))
         atexit.register(shutil.rmtree, d, True)
         _LINK = os.path.join(os.path.realpath(d), "liblink")
     return _LINK
+
+
+def _file_link():
+    return os.path.join(os.path.dirname(_symlinked_root()), "vendored_colorsys.py")
 
 
 def _roots():
@@ -158,6 +210,8 @@ def reference_filter(filename, allow):
     if not filename or filename[0] == "<":
         return False
     link = _symlinked_root()
+    if filename == _file_link():
+        filename = os.path.join(str(MC.LIB_PATHS[0]), "colorsys.py")  # what the file link resolves to
     if filename == link or filename.startswith(link + "/"):
         filename = str(MC.LIB_PATHS[0]) + filename[len(link):]  # what the link resolves to
     parts = _split(filename)
@@ -179,17 +233,19 @@ def reference_filter(filename, allow):
 
 CFG = {
     "quick": dict(components=("pkg", "site-packages", "json", "x<y"), ncomp=2, stems=("mod", "pkg", "__init__"),
-                  allow=("pkg", "mod", "json", "nomatch"), nallow=2),
-    "thorough": dict(components=COMPONENTS, ncomp=2, stems=STEMS, allow=ALLOW, nallow=3),
+                  allow=("pkg", "mod", "json", "nomatch", "<cwd>"), nallow=2),
+    "thorough": dict(components=COMPONENTS, ncomp=2, stems=STEMS, allow=ALLOW + ("<cwd>", "colorsys"), nallow=3),
 }
 
 
 def deffilter_body(t, cfg="quick"):
     c = CFG[cfg]
     libs, others = _roots()
-    kind = t.take(3)  # 0 synthetic, 1 under a library root, 2 elsewhere
+    kind = t.take(4)  # 0 synthetic, 1 under a library root, 2 elsewhere, 3 a user file that is a link into the standard library
     if kind == 0:
         filename = SYNTHETIC[t.take(len(SYNTHETIC))]
+    elif kind == 3:
+        filename = _file_link()
     else:
         base = libs[t.take(len(libs))] if kind == 1 else others[t.take(len(others))]
         ncomp = t.take(c["ncomp"] + 1)
@@ -200,7 +256,9 @@ def deffilter_body(t, cfg="quick"):
     if n_allow == 0:
         allow = None
     else:
-        allow = ",".join(c["allow"][t.take(len(c["allow"]))] for _ in range(n_allow - 1))
+        # "<cwd>" stands for the name of the current working directory (a name that matches no path component of the
+        # file, but does match a component of the directory relative names would be resolved against)
+        allow = ",".join(c["allow"][t.take(len(c["allow"]))] for _ in range(n_allow - 1)).replace("<cwd>", os.path.basename(os.getcwd()) or "root")
     code = CodeView(F.mod_func.__code__)
     code.co_filename = filename
     saved = os.environ.get("MONKEYTYPE_TRACE_MODULES")
